@@ -105,6 +105,29 @@ def _v(cls, msg, trace, extra=""):
     return {"cls": cls, "sig": f"{cls}|{extra}", "msg": msg, "trace": copy.deepcopy(trace)}
 
 
+def array_flags(obj, path="", _seen=None, out=None):
+    """(path, writeable) of every numpy array reachable from the object: properties of the caller's arrays that a deep copy loses."""
+    import attrs
+
+    _seen = set() if _seen is None else _seen
+    out = [] if out is None else out
+    if id(obj) in _seen:
+        return out
+    _seen.add(id(obj))
+    if isinstance(obj, np.ndarray):
+        out.append((path, bool(obj.flags.writeable)))
+    elif isinstance(obj, dict):
+        for k in sorted(obj, key=repr):
+            array_flags(obj[k], f"{path}[{k!r}]", _seen, out)
+    elif isinstance(obj, (list, tuple)):
+        for i, v in enumerate(obj):
+            array_flags(v, f"{path}[{i}]", _seen, out)
+    elif attrs.has(type(obj)):
+        for f in attrs.fields(type(obj)):
+            array_flags(object.__getattribute__(obj, f.name), f"{path}.{f.name}", _seen, out)
+    return out
+
+
 def _density(mo):
     if mo is None or mo.coeffs is None or mo.occs is None or mo.kind == "generalized":
         return None
@@ -162,7 +185,7 @@ def caller_edit(data, kind):
         data.one_rdms.clear()
 
 
-RELOAD_FORMATS = ("fchk", "molden", "molekel", "wfx", "wfn")
+RELOAD_FORMATS = ("fchk", "molden", "molekel", "wfx", "wfn", "cube")
 
 
 def check_written_file(data, call, disk, path, trace, stats=None):
@@ -179,6 +202,13 @@ def check_written_file(data, call, disk, path, trace, stats=None):
         return out
     if stats is not None:
         stats.inc("probe.written_files_read_back")
+    if call["fmt"] == "cube":
+        if data.cube is not None and back.cube is not None:
+            a, b = np.asarray(data.cube.data, float), np.asarray(back.cube.data, float)
+            if a.shape != b.shape or not np.allclose(a, b, rtol=2e-5, atol=1e-30):
+                nbad = "shape" if a.shape != b.shape else int((~np.isclose(a, b, rtol=2e-5, atol=1e-30)).sum())
+                out.append(_v("written_file_changes_data", f"cube: the grid read back from the file differs from the object's ({nbad} of {a.size} values)", trace, "cube/grid"))
+        return out
     try:
         n0, s0 = data.nelec, data.spinpol
         n1, s1 = back.nelec, back.spinpol
@@ -274,16 +304,36 @@ def run_history(trace, stats=None):
     if _GUARD is not None and _GUARD.changed():
         _GUARD.restore()  # cold start (see c16._cold_start)
     snap0 = snapshot(data)
+    flags0 = array_flags(data)
     disk = seams.SimDisk(buffer_size=trace.get("buffer_size", 8192), log_events=False)
     nontriv = False
-    with seams.Installed(disk), sched.Steps() as st:
+    import contextlib
+
+    live = trace.get("live_iterator")
+    with seams.Installed(disk), sched.Steps() as st, contextlib.ExitStack() as stack:
+        outer = None
+        if live:
+            # the job listens to warnings from its start (one recorder around everything) and keeps a trajectory
+            # iterator open while it dumps: every announcement must still reach the listener
+            import iodata
+
+            outer = stack.enter_context(warnings.catch_warnings(record=True))
+            warnings.simplefilter("always")
+            disk.put("live/traj.xyz", common.corpus_bytes("water_trajectory.xyz"))
+            it = iodata.load_many("live/traj.xyz")
+            next(it)
+            stack.callback(it.close)
         for k, call in enumerate(trace["calls"]):
             if call.get("edit"):
                 # the caller legitimately edits its own object between two dumps
                 caller_edit(data, call["edit"])
                 snap0 = snapshot(data)
+                flags0 = array_flags(data)
                 continue
-            res, exc, wl, path, plan = do_call(data, call, disk, f"h{k}/")
+            nw0 = len(outer) if outer is not None else 0
+            res, exc, wl, path, plan = do_call(data, call, disk, f"h{k}/", record=outer is None)
+            if outer is not None:
+                wl = [type(x.message).__name__ for x in outer[nw0:]]
             et = type(exc).__name__ if exc is not None else "ok"
             snap = snapshot(data)
             if snap != snap0:
@@ -291,6 +341,13 @@ def run_history(trace, stats=None):
                 out.append(_v("argument_mutated", f"after call #{k} {call['fmt']} ({et}): {d[:3]}", {**trace, "calls": trace["calls"][: k + 1]},
                               f"{call['fmt']}/{d[0].split(':')[0][:60] if d else ''}"))
                 snap0 = snap  # report each mutation once
+            flags = array_flags(data)
+            if flags != flags0 and not call.get("edit"):
+                ch = [f"{p_}: writeable {dict(flags0).get(p_)} -> {w_}" for p_, w_ in flags if dict(flags0).get(p_, w_) != w_]
+                if ch:
+                    out.append(_v("argument_mutated", f"after call #{k} {call['fmt']} ({et}): flags of the caller's arrays changed: {ch[:3]}",
+                                  {**trace, "calls": trace["calls"][: k + 1]}, f"{call['fmt']}/flags"))
+                flags0 = flags
             if exc is None and call["fmt"] not in ("gaussian", "orca") and not call.get("many"):
                 if not call["allow_changes"] and res is not data:
                     out.append(_v("silent_conversion", f"{call['fmt']}: a different object was returned without allow_changes", trace, call["fmt"]))
@@ -433,13 +490,13 @@ def gen_trace(rng):
     recipe, fmts = rng.choice(OBJECTS)
     recipe = copy.deepcopy(recipe)
     mod = rng.choice(MODS)
-    if recipe["file"].endswith(".cube") and rng.random() < 0.5:
-        mod = {"op": "tiny_cube_values"}  # (the one volumetric source: its special values would otherwise be drawn too rarely)
+    if recipe["file"].endswith(".cube") and rng.random() < 0.7:
+        mod = rng.choice([{"op": "tiny_cube_values"}, {"op": "cube_layout", "how": "fortran"}, {"op": "cube_layout", "how": "transposed_view"}])  # (the one volumetric source: its special values would otherwise be drawn too rarely)
     wfn_like = recipe["file"].endswith((".fchk", ".molden.input", ".mkl", ".wfn", ".wfx", ".molden"))
     if wfn_like and rng.random() < 0.12:
         recipe["mods"] = copy.deepcopy(rng.choice(MOD_PAIRS))
         mod = None
-    if mod is not None and (mod["op"] in ("extra_nested", "extra_nones", "title", "set", "asym_noise", "known_extras", "tiny_cube_values") or recipe["file"].endswith((".fchk", ".molden.input", ".mkl", ".wfn", ".wfx", ".molden"))):
+    if mod is not None and (mod["op"] in ("extra_nested", "extra_nones", "title", "set", "asym_noise", "known_extras", "tiny_cube_values", "cube_layout") or recipe["file"].endswith((".fchk", ".molden.input", ".mkl", ".wfn", ".wfx", ".molden"))):
         recipe["mods"] = [mod]
     def call():
         fmt = rng.choice(fmts) if rng.random() < 0.85 else rng.choice(sorted(OUTNAME))
@@ -475,7 +532,8 @@ def gen_trace(rng):
                 c["faults"] = [{"kind": "close_fail", "errno": "EIO"}]
             elif r < 0.33:
                 c["faults"] = [{"kind": "disk_full", "capacity": rng.choice([0, 10, 100, 700, 5000])}]
-        return {"mode": "history", "obj": recipe, "calls": calls, "buffer_size": rng.choice([16, 8192]), "readonly": rng.random() < 0.35}
+        return {"mode": "history", "obj": recipe, "calls": calls, "buffer_size": rng.choice([16, 8192]), "readonly": rng.random() < 0.35,
+                "live_iterator": rng.random() < 0.2}
     n = rng.randint(2, 4)
     calls = [call() for _ in range(n)]
     r = rng.random()
